@@ -583,7 +583,8 @@ def canaries(ctx):
             break
         q = Program(ctx, rng, 1)
         base_trace = q.run_alone()
-    fake = [x if x[0] != 'record' else (x[0], x[1], x[2] + 1, x[3]) for x in base_trace]
+    # (the counter is an extra observable; a reader that does not expose one yields None there)
+    fake = [x if x[0] != 'record' else (x[0], x[1], (x[2] or 0) + 1, x[3]) for x in base_trace]
     ctx.canary('a shifted record counter changes the trace', fake != base_trace)
 
 
